@@ -186,9 +186,9 @@ type node struct {
 	l, r *node
 }
 
-func leaf(i int) *node             { return &node{leaf: i} }
+func leaf(i int) *node                { return &node{leaf: i} }
 func bin(op string, l, r *node) *node { return &node{op: op, l: l, r: r} }
-func un(op string, x *node) *node  { return &node{op: op, un: true, l: x} }
+func un(op string, x *node) *node     { return &node{op: op, un: true, l: x} }
 
 // eval: undef dominates (the case is outside the compared set); otherwise an
 // erroring operand makes the whole (strict) expression an error.
